@@ -18,8 +18,48 @@ def ins_scenarios(rng, n):
         sc['pool']['enable_insights'] = True
         for op in sc['ops']:
             op.setdefault('dur', {'kind': 'hash', 'salt': rng.randint(0, 99), 'unit': 0.01})
+        if rng.random() < .25:
+            # the workers are started by apply submissions (insights have to be reset / present then too)
+            k = rng.randint(1, 6)
+            sc['ops'].insert(0, {'op': 'apply_batch', 'tasks': [{'idx': i} for i in range(k)], 'dur': {'kind': 'map', 'map': {}, 'default': 0.01}, 'get_timeout': 30,
+                                 'want_insights': True})
+            sc['pool'].pop('keep_alive', None)
         scs.append(sc)
     return scs
+
+
+def top5_scenarios(rng, n):
+    """task durations strictly increasing with the task index, so that the five longest tasks are known: with and without restarts"""
+    scs = []
+    for _ in range(n):
+        nj = rng.choice([1, 2, 3])
+        nn = rng.randint(6, 14)
+        op = {'op': rng.choice(['map', 'map_unordered', 'imap', 'imap_unordered']), 'n': nn, 'chunk_size': 1, 'elem': 'scalar',
+              'dur': {'kind': 'map', 'map': {str(i): round(0.01 * (i + 1), 4) for i in range(nn)}, 'default': 0.01}}
+        if rng.random() < .6:
+            op['worker_lifespan'] = rng.choice([1, 2, 3])
+        scs.append({'seed': rng.randint(0, 10 ** 6), 'pool': {'n_jobs': nj, 'start_method': rng.choice(['fork', 'threading']), 'enable_insights': True},
+                    'ops': [op], 'top5': True})
+    return scs
+
+
+def top5_judge(chk, sc, o):
+    if o.get('harness_error') or o.get('stuck') or not o.get('ops') or o['ops'][0].get('outcome') != 'ok':
+        return
+    ins = o['ops'][0].get('insights') or {}
+    nn = sc['ops'][0]['n']
+    want = [round(0.01 * (i + 1), 4) for i in range(nn)][-5:][::-1]
+    got = ins.get('top_5_max_task_durations') or []
+    def secs(x):
+        try:
+            h, m, s_ = str(x).split(':')
+            return round(int(h) * 3600 + int(m) * 60 + float(s_), 4)
+        except Exception:
+            return x
+    got_s = [secs(x) for x in got]
+    if len(got_s) != len(want) or any(abs(a - b) > 0.002 for a, b in zip(got_s, want) if isinstance(a, float)):
+        chk.violation('top5_are_the_five_longest', {'scenario': sc}, {'reported': got, 'expected_seconds': want, 'args': ins.get('top_5_max_task_args')},
+                      'the five longest tasks since the workers started, longest first', input_class='top5_content')
 
 
 def run(chk):
@@ -68,6 +108,11 @@ def run(chk):
                   nontrivial=lambda sc, o: len(o.get('calls', [])) >= 2,
                   dist=lambda sc, o: {'keep_alive': bool(sc['pool'].get('keep_alive')), 'ops': len(sc['ops']), 'lifespan': sc['ops'][0].get('worker_lifespan') is not None,
                                       'start': sc['pool']['start_method']})
+    ts = top5_scenarios(rng, 80 if chk.tier == 'quick' else 1200)
+    tobs = run_scenarios(chk, 'top-5 content: known durations, with and without lifespan restarts (DetSim)', ts, {'C18'}, nontrivial=lambda sc, o: True,
+                         dist=lambda sc, o: {'lifespan': sc['ops'][0].get('worker_lifespan'), 'start': sc['pool']['start_method']})
+    for sc, o in zip(ts, tobs):
+        top5_judge(chk, sc, o)
     chk.assumptions += ['float rounding of the ratios is compared numerically (1e-9) against exact rationals',
                         'the SyncManager holding the argument strings is replaced by an in-process list']
 
